@@ -13,7 +13,7 @@ def P(pid, bin, level="exploration", also_release=False, secondary=(), watchdog=
     PROPS[pid] = d
 
 
-P("C17", "vn", also_release=True,
+P("C17", "vn", also_release=True, secondary=("miri",),
   technique="runtime monitoring: online comparison of every BlockRanges operation against an executable interval-set model + representation-invariant assertion; exhaustive small universe and boundary-pool random histories",
   design_ref="DESIGN.md §5 C17",
   level_text="Exploration: each of the 1024 subsets of heights 1..10 is driven through every operation and argument 0..12, plus random histories over a u64 boundary pool, under a build with overflow checks and debug assertions (and plain release in thorough); the result, full content and representation invariant are compared with a model after every call. Held = no divergence on the executions explored.",
